@@ -652,12 +652,14 @@ def realize_mcmc(case):
 
 
 # ----------------------------------------------------------------------------------------------- off the lattice
-def random_real_config(rnd):
+def random_real_config(rnd, many_surveys=False):
     """a random valid problem over the reals (surveys time-disjoint in list order: the one class an open finding - C08's label
     order - still excludes) - see harness/gauss_oracle.py for the fields"""
     poly = rnd.choice([1, 1, 2, 3])
     noff = rnd.choice([0, 0, 1, 2])
-    nper = [rnd.randint(2, 9) for _ in range(noff + 1)]
+    if many_surveys:          # more than nine offsets: dv0_10 must not be taken for dv0_1's neighbour by anything that sorts names
+        noff = 11
+    nper = [rnd.randint(2, 9 if not many_surveys else 4) for _ in range(noff + 1)]
     t, lab = [], []
     start = rnd.uniform(-30.0, 60.0)
     for j, n in enumerate(nper):
@@ -760,9 +762,12 @@ def realize_real(case):
     from thejoker import TheJoker
     from . import gauss_oracle as go
     rnd = _random.Random(case["seed"])
-    c = random_real_config(rnd)
+    c = random_real_config(rnd, many_surveys=bool(case.get("many_surveys")))
     L_ = 1 + c["poly"] + c["noff"]
     ua = random_units(rnd, L_)
+    if c["noff"] > 2:         # one unit per survey (the assignments are drawn for three)
+        for key in ("src_units", "err_units"):
+            ua[key] = [ua[key][k % 3] for k in range(c["noff"] + 1)]
     ua["pprior"] = rnd.choice(["d", "yr", "h", "oct"])           # the period prior in any time unit
     out = {"id": case["id"], "seed": case["seed"], "c": {k: (v if not isinstance(v, list) or len(v) <= 12 else v[:12]) for k, v in c.items()},
            "ok": False}
@@ -849,8 +854,9 @@ OFF_TOL = 1e-6      # observed on the unchanged tree: <= 2e-8 (Kepler solver tol
 def offlattice(ctx, family, n, key):
     """run n random real-valued problems; `key` selects the deviation this property owns.  Returns the list of results."""
     from . import core
-    res = core.pmap(realize_real, [{"id": "real-%s-%d" % (family, i), "seed": ctx.seed * 100000 + 7 * i + len(family)} for i in range(n)],
-                    chunksize=4)
+    # (the first two problems of C01 / C03 have twelve surveys: eleven offsets with priors of their own)
+    res = core.pmap(realize_real, [{"id": "real-%s-%d" % (family, i), "seed": ctx.seed * 100000 + 7 * i + len(family),
+                                    "many_surveys": family in ("C01", "C03") and i < 2} for i in range(n)], chunksize=4)
     worst = 0.0
     used = 0
     for r in res:
